@@ -21,7 +21,11 @@ def finish (hi lo : F64) : Except DeErr TwoFloat :=
 trailing elements) -/
 def deSeq (xs : List F64) : Except DeErr TwoFloat :=
   match xs with
-  | [hi, lo] => finish hi lo
+  | hi :: lo :: rest =>
+    -- the visitor reads two elements and validates them; the driving deserializer only then objects to trailing elements
+    match finish hi lo with
+    | .ok t => if rest.isEmpty then .ok t else .error .invalid_length
+    | .error e => .error e
   | _ => .error .invalid_length
 
 /-- the key loop of `visit_map`: state = (hi?, lo?) -/
